@@ -395,7 +395,10 @@ func genWraps() {
 			for _, s := range sh {
 				line := d + ": " + s
 				fmt.Fprintf(&txt, "%s %s\n", p, line)
-				if !hard[d] {
+				if !hard[d] || u8Arith(s) {
+					// arithmetic whose operands and result are 8 bits wide stays out of the obligation: all 256
+					// values are within reach of the differential re-validation of stage T (wraps.txt still lists
+					// the site); narrowing conversions to 8 bits and every wider site remain obligations
 					continue
 				}
 				if !first {
@@ -409,6 +412,12 @@ func genWraps() {
 	}
 	writeIfChanged("Wraps.v", sb.String())
 	writeIfChanged("wraps.txt", txt.String())
+}
+
+// u8Arith: a site "<operator> uint8: <expression>" (not a narrowing conversion "narrow to uint8: ...")
+func u8Arith(site string) bool {
+	i := strings.Index(site, ": ")
+	return i > 0 && strings.HasSuffix(site[:i], " uint8") && !strings.HasPrefix(site, "narrow to ")
 }
 
 // normIdents prints a node with every identifier that is not a package name, a type/builtin name or a selected field
